@@ -47,6 +47,11 @@ def rule_R14(ctx, rep, config="c-lib"):
     p = ctx.prog(config)
     m = p.m
     cache = caches(m)
+    # frozen from today's tree (discovery alone would forget a cache whose refresh was deleted)
+    for g_, c_ in (("toks", "@toks_vlo"), ("sit_table", "@sit_table_vlo"), ("core_symb_table", "@core_symb_table_vlo"),
+                   ("new_sits", "@set_sits_os"), ("new_dists", "@set_dists_os")):
+        if g_ in m.globals and c_[1:] in m.globals:
+            cache.setdefault(g_, set()).add(c_)
     nsites = 0
     nptr = 0
     for f in m.defined():
